@@ -174,6 +174,10 @@ def run_history(part, binpath, rng, nops, sc_seed):
         sync = {"op": "read", "id": last_id - 1, "uri": "file:///c20/none.spl", "kind": "text", "expect": None}
         ops = ops + [sync]; d.write(to_message(sync))
         d.write({"jsonrpc": "2.0", "id": last_id, "method": "shutdown"})
+        # a quarter of the histories end without waiting: exit is pipelined directly behind shutdown, so the process is told to end
+        # while answers may still be queued in front of the responder (every one of them has to be written before it ends)
+        pipelined_bye = rng.random() < .25
+        if pipelined_bye: d.write({"jsonrpc": "2.0", "method": "exit"}); what += " goodbye=pipelined"; sc["pipelined_goodbye"] = True
         reads = [op for op in ops if op["op"] == "read"]
         deadline = time.monotonic() + 1500; t_start = time.monotonic(); busy_since = None
         stall_until = 0; alive = True
@@ -205,7 +209,8 @@ def run_history(part, binpath, rng, nops, sc_seed):
         if not alive and not done():
             err = d.p.stderr.read().decode(errors="replace")[-300:] if d.p.poll() is not None else ""
             part.fail("%s: the server closed its output before answering everything (%d messages received) %s" % (what, len(d.msgs), err), sc); return
-        d.write({"jsonrpc": "2.0", "method": "exit"})
+        if not pipelined_bye: d.write({"jsonrpc": "2.0", "method": "exit"})
+        else: part.cnt("histories_with_pipelined_goodbye")
         t0 = time.monotonic()
         while d.out and time.monotonic() - t0 < 5: d.pump(True, 0.01)
         part.ev(len(ops))
